@@ -74,7 +74,11 @@ def _from_dict(node: dict, parent: Node = None) -> Node:
     children = body[7]["children"]
     for child in children:
         child_node = _from_dict(child, node)
-        node.add_child(child_node)
+        # Attach the child as it was saved: add_child would push this node's
+        # prefixes into a child (and subtree) whose saved map lacks them
+        node.children.append(child_node)
+        if child_node.nsmap == node.nsmap:
+            child_node.nsmap = node.nsmap  # Map to single instance of nsmap
 
     return node
 
